@@ -128,3 +128,45 @@ def nested(rng, depth):
     if k == 2:
         return "fn f(x: " + "&" * depth + "i32)\n{\n}\n"
     return "fn main()\n{\n\tvar x: " + "[1]" * depth + "u8;\n}\n"
+
+
+def clash_modules(rng):
+    """two or three modules that each declare PRIVATE things under the same names (a structure or word with a different
+    layout, a helper function, a constant) and export one public function each; a valid program"""
+    n = 2 + rng.below(2)
+    kind = rng.pick(["struct", "struct", "word", "fn", "const", "all"])
+    mods = []
+    total = 0
+    for j in range(n):
+        tys = ["i32", "i64", "u8", "i16"]
+        parts = []
+        use = []
+        if kind in ("struct", "all"):
+            k = 1 + (j + rng.below(2)) % 3
+            mt = [rng.pick(tys) for _ in range(k)]
+            parts.append("struct Pair\n{\n" + "".join("\tm%d: %s,\n" % (i, t) for i, t in enumerate(mt)) + "}\n")
+            use.append("\tvar pair = Pair { " + ", ".join("m%d: %d" % (i, i + j + 1) for i in range(k)) + " };\n"
+                       "\tr = r + (pair.m0 as i32);\n")
+        if kind in ("word", "all"):
+            size, mt = rng.pick([(16, ["u8", "u8"]), (32, ["u16", "u8"]), (64, ["u32", "u32"]), (32, ["u8", "u8", "u8"])])
+            parts.append("word%d Bits\n{\n" % size + "".join("\tw%d: %s,\n" % (i, t) for i, t in enumerate(mt)) + "}\n")
+            use.append("\tvar bits = Bits { " + ", ".join("w%d: %d" % (i, i + 1) for i in range(len(mt))) + " };\n"
+                       "\tr = r + (bits.w0 as i32);\n")
+        if kind in ("fn", "all"):
+            parts.append("fn helper(x: i32) -> i32\n{\n\treturn: x + %d\n}\n" % (j + 1))
+            use.append("\tr = helper(r);\n")
+        if kind in ("const", "all"):
+            parts.append("const K: i32 = %d;\n" % (10 * (j + 1)))
+            use.append("\tr = r + K;\n")
+        body = "\tvar r: i32 = 0;\n" + "".join(use)
+        if j < n - 1:
+            src = "".join(parts) + "pub fn value%d() -> i32\n{\n%s\treturn: r\n}\n" % (j, body)
+            mods.append(("lib%d.pn" % j, src))
+        else:
+            imports = "".join('import "lib%d.pn";\n' % i for i in range(n - 1))
+            calls = "".join("\tr = r + value%d();\n" % i for i in range(n - 1))
+            src = imports + "".join(parts) + "fn main() -> i32\n{\n%s%s\treturn: r\n}\n" % (body, calls)
+            mods.append(("main.pn", src))
+    if rng.chance(1, 2):
+        mods.reverse()
+    return mods
